@@ -488,6 +488,7 @@ func (ps *PathState) decide(c sym) bool {
 				}
 				if r == "unknown" {
 					ps.Inconcl++
+					ps.pcUnknown = true
 				}
 				var me, alt int32 = 1, 0
 				if !v {
